@@ -188,6 +188,44 @@ func runC14(c *Ctx, w *World, r *Report) {
 			r.Check(bad == "", "R-COPYBIT", n, w.InstrPos(wr.Ins), bad, append(facts, "dest bit = "+wr.PosLin.String()+", source bit = "+rd.PosLin.String())...)
 		}
 	}
+	// ---- R-TRIM: trimming the result to a LENGTH n uses Mask[n] (n low bits), not MaskUpto[n] (n+1 bits)
+	{
+		n := "bitmap.Slice"
+		fn := fns[n]
+		fa := w.FA(fn)
+		r.Rule("R-TRIM", "when Slice trims a result word to the range length (to-from) mod 64 it masks with bitmap.Mask[n] (exactly n low bits); MaskUpto[n] keeps n+1 bits and leaks input bit `to` into the result")
+		bad := ""
+		ntrim := 0
+		want := fa.Lin(fn.Params[2]).Sub(fa.Lin(fn.Params[1]))
+		eachInstr(fn, func(ins ssa.Instruction) {
+			bo, ok := ins.(*ssa.BinOp)
+			if !ok || bo.Op != token.AND {
+				return
+			}
+			for _, m := range []ssa.Value{bo.X, bo.Y} {
+				tab, idx, ok := asElemLoad(m)
+				if !ok {
+					continue
+				}
+				g, isG := tab.(*ssa.Global)
+				if !isG || !maskTables[g.Name()] {
+					continue
+				}
+				x, j, ok := asLowMask(idx)
+				if !ok || j != 6 {
+					continue
+				}
+				if d := fa.Lin(x).Sub(want); !(d.IsConst() && d.K%64 == 0) {
+					continue
+				}
+				ntrim++
+				if g.Name() != "Mask" {
+					bad = fmt.Sprintf("the result is trimmed to the range length with %s at %s; a length n needs Mask[n]", g.Name(), w.InstrPos(ins))
+				}
+			}
+		})
+		r.Check(bad == "", "R-TRIM", n, w.Pos(fn.Pos()), bad, fmt.Sprintf("%d length-trim sites, all with Mask", ntrim))
+	}
 	// ---- R-PACK
 	type pack struct {
 		idx, width ssa.Value
